@@ -4,7 +4,7 @@ from hypothesis import strategies as st
 import harness.compat  # noqa: F401
 from harness import refmodel as rm
 from harness import strategies as S
-from harness.build import mkgene, mkfc, mkcollection, mktx, chrom_parent
+from harness.build import mkgene, mkfc, mkcollection, mktx, chrom_parent, chunk_parent
 from harness.core import Leg, Prop
 from inscripta.biocantor.exc import ValidationException, NoncodingTranscriptError, BioCantorException
 
@@ -33,7 +33,15 @@ def check_gene(spec, ctx):
     g = spec["obj"]
     txs = g["transcripts"]
     genome = spec.get("genome")
-    parent = chrom_parent(genome) if genome else None
+    chunk = spec.get("chunk") if genome else None
+    parent = (chunk_parent(genome, chunk[0], chunk[1]) if chunk else chrom_parent(genome)) if genome else None
+    if chunk:
+        # aggregates are chromosome-level answers: a sequence chunk that contains, cuts or misses the children changes none
+        allp = set()
+        for t in txs:
+            allp |= tx_positions(t)
+        ins = [p_ for p_ in allp if chunk[0] <= p_ < chunk[1]]
+        ctx.label("on_chunk", "chunk_cuts_gene" if 0 < len(ins) < len(allp) else ("chunk_misses_gene" if not ins else "chunk_contains_gene"))
     strands = {t["strand"] for t in txs}
     coding = [("cds" in t) for t in txs]
     cds_len = lambda t: sum(e - s for s, e in t["cds"]) if "cds" in t else 0  # noqa: E731
@@ -75,7 +83,7 @@ def check_gene(spec, ctx):
         ctx.true("primary_cds", gene.get_primary_cds() is gene.transcripts[exp_primary].cds)
     else:
         ctx.true("primary_cds_none", gene.get_primary_cds() is None)
-    if genome:
+    if genome and not chunk:
         ctx.eq("primary_transcript_sequence", str(gene.get_primary_transcript_sequence()), rm.seq_image(genome, rm.positions(pt["exons"], pt["strand"]), pt["strand"]))
         ctx.eq("primary_feature_sequence", str(gene.get_primary_feature_sequence()), str(gene.get_primary_transcript_sequence()))
         if "cds" in pt:
@@ -125,7 +133,10 @@ def check_fc(spec, ctx):
     c = spec["obj"]
     feats = c["features"]
     genome = spec.get("genome")
-    parent = chrom_parent(genome) if genome else None
+    chunk = spec.get("chunk") if genome else None
+    parent = (chunk_parent(genome, chunk[0], chunk[1]) if chunk else chrom_parent(genome)) if genome else None
+    if chunk:
+        ctx.label("fc_on_chunk")
     strands = {f["strand"] for f in feats}
     spl_len = lambda f: sum(e - s for s, e in f["blocks"])  # noqa: E731
     if len(feats) >= 2:
@@ -154,7 +165,7 @@ def check_fc(spec, ctx):
     p = fc.get_primary_feature()
     idx = [i for i, f in enumerate(fc.feature_intervals) if f is p]
     ctx.eq("fc_primary_choice", idx[0] if idx else None, exp_primary, extra=[(spl_len(f), f.get("is_primary_feature")) for f in feats])
-    if genome:
+    if genome and not chunk:
         pf = feats[exp_primary]
         ctx.eq("fc_primary_sequence", str(fc.get_primary_feature_sequence()), rm.seq_image(genome, rm.positions(pf["blocks"], pf["strand"]), pf["strand"]))
     union = set()
@@ -222,6 +233,9 @@ def strat_gene(draw, tier="quick"):
     if draw(st.booleans()):
         hi = max(t["exons"][-1][1] for t in txs)
         sp["genome"] = draw(S.dna(hi + 1, hi + 3))
+        if draw(st.integers(0, 2)) == 0:
+            a = draw(st.integers(0, hi))
+            sp["chunk"] = [a, draw(st.integers(a + 1, len(sp["genome"])))]
     return sp
 
 
@@ -245,6 +259,9 @@ def strat_fc(draw, tier="quick"):
     if draw(st.booleans()):
         hi = max(f["blocks"][-1][1] for f in feats)
         sp["genome"] = draw(S.dna(hi + 1, hi + 3))
+        if draw(st.integers(0, 2)) == 0:
+            a = draw(st.integers(0, hi))
+            sp["chunk"] = [a, draw(st.integers(a + 1, len(sp["genome"])))]
     return sp
 
 
